@@ -104,6 +104,15 @@ def gen_helper_cases(rng, R: L.Real, n: int, stats: Counter):
                 lambda op=op, side=side, a=rx, b=ry, tk=tkind, c=rconst, eo=reo, bo=rbo, us=use_set: (
                     f"{op}:{side}:" + R.rule_expand_binary(op, side, a, b, tk, c, eo, bo, us)),
             )
+        # ---- ScatterAllDynamic: Shape(start) -> Gather(axis) -> Range -> Unsqueeze -> ScatterND
+        sd = L.gen_shape(rng, max_rank=3, p_unknown=0.1)
+        if not sd:
+            sd = [L.gen_dim(rng)]
+        sst = rng.choice([0, 0, 0, None, 1, -1])
+        sax = rng.randint(-len(sd), len(sd) - 1)
+        std = [sd[sax] if rng.random() < 0.6 else L.gen_dim(rng)] + [rng.choice([2, "M", 1]) for _ in range(rng.randint(0, 2))]
+        add("ruleScatterDyn", f"scatterDyn {L.enc_oint(sst)} {sax} {L.enc_shape(sd)} {L.enc_shape(std)}",
+            lambda a=sst, b=sax, c=sd, d=std: R.rule_scatter_dyn(a, b, c, d))
         # ---- evaluators
         s = L.gen_oshape(rng)
         st = rng.choice([0, 0, 0, 1, 2, -1, -2, 5, -7])
